@@ -100,6 +100,10 @@ func userSets() [][]string {
 		}
 		out = append(out, s)
 	}
+	// user tag sets that repeat tags the tool chain sets itself (a list that already
+	// names a default tag must not change what the other default tags do)
+	out = append(out, []string{"gopherjs"}, []string{"u1", "gopherjs"}, []string{"netgo"}, []string{"purego", "math_big_pure_go"},
+		[]string{"gopherjs", "netgo", "purego", "math_big_pure_go"}, []string{"js"}, []string{"gc", "ecmascript"})
 	return out
 }
 
